@@ -307,7 +307,10 @@ class Gen:
 # ---------------------------------------------------------------------------------------------- rendering
 SEPS_PLAIN = [b" ", b" ", b" ", b"\n", b"  ", b"\t"]
 SEPS_WILD = [b" ", b"\n", b"\t", b"\r\n", b"\r", b" \n ", b"\n\r", b" --c\n", b" -- comment \xe4\xb8\xad\n", b" --[[ x ]] ",
-             b"--[==[\n multi ]] \n]==]", b"\x0b", b"\x0c", b"\n\n", b" ---@type number\n"]
+             b"--[==[\n multi ]] \n]==]", b"\x0b", b"\x0c", b"\n\n", b" ---@type number\n",
+             # short comments that only LOOK like long-bracket openers, and long comments with odd levels / contents
+             b" --[= note\n", b" --[==] section [==]\n", b" --[\n", b" --[ x ]\n", b" --[=====\r\n", b" ---[[ not long\n",
+             b" --[=[ one ]=] ", b" --[===[ ]] ]=] ]==] ]===] ", b" --[[\n--]] ", b" --]]\n", b" --\n", b" --[[]] "]
 
 
 def render(tokens, rng, style="plain", lead=True):
